@@ -11,7 +11,10 @@
  (e) statement parsers never end on skipped loud comments: `ignore_comments` (the only skipper
      that also consumes `/* */`) may separate the tokens of one statement, but the position a
      statement parser returns is never the one obtained by skipping — a comment after a
-     statement belongs to the enclosing body, where it becomes an Item::Comment.
+     statement belongs to the enclosing body, where it becomes an Item::Comment;
+ (f) no write-time drop: every `write` method of the css item types emits on every success path except
+     the reviewed omissions (shared with C21): a block that "has no visible content" may not swallow the
+     comments inside it.
 """
 import json
 import os
@@ -238,6 +241,8 @@ def run(ctx, F):
             ctx.fail("F5-push_comment", f"{ty}::push_comment stores or forwards", f"{ty}::push_comment can return without storing or forwarding the comment")
     # ---------------------------------------------------------------- (d)
     format_propagation(ctx, prog)
+    from rules.C21 import writers_always_emit
+    writers_always_emit(ctx, F, rule="F3-writer-emits")
     statement_parsers_keep_trailing_comments(ctx, tree)
     ctx.explanation = ("Data dependence of the comment-dropping condition on the comment value (MIR dominating tests of the push_comment call), inventory of Item::Comment constructors and of the parser they are fed by, "
                        "sibling table of the five push_comment implementations, provenance of the Format given to every new_global scope.")
